@@ -108,6 +108,8 @@ class Program:
     """Parsed MIR + source info + name resolution."""
 
     def __init__(self, funcs, src):
+        self.allocs = funcs.pop('$allocs', {})
+        self.statics = {}       # static name -> Function (initializer)
         self.funcs = funcs
         self.src = src
         self.by_key = {}        # 'Type::method' / '<Type as Trait>::method' / 'free_fn' -> [Function]
@@ -123,6 +125,8 @@ class Program:
         for name, fn in self.funcs.items():
             if fn.kind != 'fn':
                 self.consts[name] = fn
+                if fn.kind == 'static':
+                    self.statics[name] = fn
                 continue
             m = re.search(r'::\{closure#(\d+)\}$', name)
             if m:
@@ -258,6 +262,8 @@ class Interp:
         self.prefix = []
         self.pos = 0
         self.decisions = []
+        self.decided = {}
+        self._keep = []
         self.pc = []
         self.fresh_n = 0
         self.symbols = {}
@@ -296,10 +302,110 @@ class Interp:
         cond = z3.simplify(cond)
         if z3.is_true(cond):
             return
-        if z3.is_false(cond) or not self._check(cond):
+        if z3.is_false(cond):
+            raise Infeasible("assumption infeasible")
+        # known already?
+        conj = [cond]
+        flat = []
+        while conj:
+            c = conj.pop()
+            if z3.is_and(c):
+                conj.extend(c.children())
+            else:
+                flat.append(c)
+        if all(self.decided.get(c.get_id()) is True for c in flat):
+            return
+        if any(self.decided.get(c.get_id()) is False for c in flat):
+            raise Infeasible("assumption contradicts known fact")
+        # inside the replayed prefix the same assumption was already found feasible on the parent path
+        if not (self.pos < len(self.prefix)) and not self._check(cond):
             raise Infeasible("assumption infeasible")
         self.pc.append(cond)
         self.solver.add(cond)
+        self._learn(cond)
+
+    def _learn(self, cond):
+        """Record atoms that are now known (cheap syntactic cache used by branch())."""
+        stack = [cond]
+        while stack:
+            c = stack.pop()
+            if z3.is_and(c):
+                stack.extend(c.children())
+                continue
+            self._keep.append(c)
+            self.decided[c.get_id()] = True
+            if z3.is_not(c):
+                self.decided[c.arg(0).get_id()] = False
+
+    def valuation(self, conds, label=''):
+        """Truth values (tuple of bools) of several conditions at once, forking over every feasible
+        valuation.  Model-guided: costs (#feasible valuations + 1) solver queries instead of 2 per condition."""
+        cs = []
+        for c in conds:
+            c = as_cond(c)
+            if not isinstance(c, bool):
+                c = z3.simplify(c)
+                if z3.is_true(c):
+                    c = True
+                elif z3.is_false(c):
+                    c = False
+                else:
+                    k = self.decided.get(c.get_id())
+                    if k is not None:
+                        c = k
+            cs.append(c)
+        sym = [i for i, c in enumerate(cs) if not isinstance(c, bool)]
+        if not sym:
+            return tuple(cs)
+        if self.pos < len(self.prefix):
+            val = self.prefix[self.pos]
+        else:
+            found = []
+            self.solver.push()
+            try:
+                while True:
+                    t = time.time()
+                    r = self.solver.check()
+                    self.stats.solver_s += time.time() - t
+                    self.stats.queries += 1
+                    if r == z3.unsat:
+                        self.stats.unsat += 1
+                        break
+                    if r != z3.sat:
+                        self.stats.unknown += 1
+                        raise Inconclusive("solver unknown in valuation (%s)" % self.name)
+                    self.stats.sat += 1
+                    m = self.solver.model()
+                    v = tuple(bool(z3.is_true(m.eval(cs[i], True))) for i in sym)
+                    found.append(v)
+                    self.solver.add(z3.Not(z3.And(*[cs[i] if b else z3.Not(cs[i]) for i, b in zip(sym, v)])))
+                    if len(found) > 4096:
+                        raise Inconclusive("too many valuations")
+            finally:
+                self.solver.pop()
+            if not found:
+                raise Infeasible("no valuation")
+            val = found[0]
+            for other in found[1:]:
+                self.worklist.append(self.decisions + [other])
+        self.pos += 1
+        self.decisions.append(val)
+        for i, b in zip(sym, val):
+            c = cs[i] if b else z3.Not(cs[i])
+            self.pc.append(c)
+            self.solver.add(c)
+            self.decided[cs[i].get_id()] = b
+            self._keep.append(cs[i])
+            cs[i] = b
+        return tuple(cs)
+
+    def first_true(self, conds, label=''):
+        """Index of the first condition that holds (priority order), or None."""
+        v = self.valuation(conds, label)
+        for i, b in enumerate(v):
+            if b:
+                return i
+        return None
 
     def branch(self, cond, label=''):
         """Return a Python bool for the symbolic condition, forking if both sides are feasible."""
@@ -311,6 +417,10 @@ class Interp:
             return True
         if z3.is_false(cond):
             return False
+        cid = cond.get_id()
+        known = self.decided.get(cid)
+        if known is not None:
+            return known
         if self.pos < len(self.prefix):
             d = self.prefix[self.pos]
         else:
@@ -327,6 +437,10 @@ class Interp:
         c = cond if d else z3.Not(cond)
         self.pc.append(c)
         self.solver.add(c)
+        self.decided[cid] = d
+        self._keep.append(cond)
+        if z3.is_not(cond):
+            self.decided[cond.arg(0).get_id()] = not d
         return d
 
     def choose(self, n, label=''):
@@ -391,6 +505,8 @@ class Interp:
             self.prefix = prefix
             self.pos = 0
             self.decisions = []
+            self.decided = {}
+            self._keep = []
             self.pc = []
             self.fresh_n = 0
             self.symbols = {}
@@ -626,6 +742,14 @@ class Interp:
         m = re.match(r'^(-?[\d.]+(?:e-?\d+)?)f(32|64)$', c)
         if m:
             return Opaque('f' + m.group(2), 'float', float(m.group(1)))
+        if c.startswith('ZeroSized: '):
+            c = c[len('ZeroSized: '):]
+            if c.startswith('{closure@') or c.startswith('{async'):
+                sm = re.search(r'@([^}]*?)(?: \(#\d+\))?\}$', c)
+                if sm and sm.group(1) in self.prog.by_span:
+                    return Closure(c, [], [], self.prog.by_span[sm.group(1)], False)
+                raise Inconclusive("cannot find body for " + c)
+            return FnItem(c)
         # promoted / named constants with MIR bodies
         fn = self.find_const(frame, c)
         if fn is not None:
@@ -641,6 +765,13 @@ class Interp:
             r = hook(self, frame, c, want_ty)
             if r is not NotImplemented:
                 return r
+        m = re.match(r'^\{alloc(\d+): (.*)\}$', c)
+        if m:
+            a = self.prog.allocs.get(int(m.group(1)))
+            if a and a.get('static'):
+                return self.static_ref(a['static'])
+            if a and a.get('bytes') is not None and re.match(r'^&(\[u8(; \d+)?\]|str)$', m.group(2).strip()):
+                return self.str_const(a['bytes'], 'bytes')
         if c.startswith('{alloc') or c.startswith('<') or 'ALIGN' in c or 'SIZE' in c:
             return Opaque(want_ty or '', 'const:' + c)
         # fn item / ZST
@@ -673,6 +804,21 @@ class Interp:
                 return ex[0]
             raise Inconclusive("ambiguous const " + c)
         return None
+
+    def static_ref(self, name):
+        """Pointer to the (per-path) storage of a `static`; initialised by running its initializer."""
+        st = self.env.setdefault('statics', {})
+        if name not in st:
+            fn = self.prog.statics.get(name)
+            if fn is None:
+                cands = [f for n, f in self.prog.statics.items() if n.split('::')[-1] == name.split('::')[-1]]
+                fn = cands[0] if len(cands) == 1 else None
+            if fn is None:
+                raise Inconclusive("unknown static " + name)
+            cell = Cell(None, 'static:' + name)
+            st[name] = cell
+            cell.val = self.call_function(fn, [])
+        return Ptr(st[name], ())
 
     def str_const(self, data, kind):
         cell = Cell(Seq([BV(8, b) for b in data], kind), 'lit')
